@@ -12,7 +12,7 @@ COQ_TARGETS = ["Properties/C04.vo"]
 
 RULE = ("case = shape x byte string: valid encodings of random values; truncations at every prefix length and extensions; "
         "single-field corruption of every length / unsized-size / element-count / offset / length-copy / discriminant / bool "
-        "field with values {0,1,field+-1,255,2^16-1,2^31,2^32-1,2^63+1,2^64-1 (as width allows)}; pairs (an offset entry pushed beyond the data + a length/size field enlarged; element count and its trailing copy changed consistently); whole offset tables displaced; UnsizedString payloads overwritten with eight kinds of malformed UTF-8; random bytes. The input "
+        "field with values {0,1,field+-1,255,2^16-1,2^31,2^32-1,2^63+1,2^64-1 (as width allows)}; pairs (an offset entry pushed beyond the data + a length/size field enlarged; element count and its trailing copy changed consistently); whole offset tables displaced; UnsizedString payloads overwritten with eight kinds of malformed UTF-8; keyed containers (Map<u8,bool>, Set<bool>) of 1-5 items with one forbidden bit pattern at a time; random bytes. The input "
         "ends exactly at a PROT_NONE page and each case runs in a forked child (SIGSEGV = observation). Observed: outcome "
         "and value of the owned conversion, then the shared view's extent and every element each shared accessor / iterator "
         "yields with an inside-the-input flag. non-trivial = input that is neither a valid encoding nor rejected at the first "
@@ -123,6 +123,30 @@ def gen_cases(rng, tier):
                     for (pos, w, _) in offs:
                         b2[pos:pos + w] = U.le((U.unle(bs[pos:pos + w]) + delta) % 2 ** 32, w)
                     add(idx, desc, b2)
+        # keyed containers whose items have forbidden bit patterns: several items, ONE field of ONE item invalid at a time
+        if U.role_at(idx, ()) in ("map", "set"):
+            lt = ty[1][0]
+            c, lw = lt[1], lt[2]
+            sz = U.fsize(c)
+            spots = [f for f in U.field_positions(("F", c), ("B", [0] * sz), 0)]
+            if spots:
+                for n_items in (1, 2, 3, 5):
+                    items = [[(7 * i + 1) % 2 if any(p == q for q, _, _ in spots) else (10 * i + p) % 256 for p in range(sz)]
+                             for i in range(n_items)]
+                    # strictly ascending keys: the first byte that is not a checked field carries the index
+                    for i, it in enumerate(items):
+                        for p in range(sz):
+                            if not any(p == q for q, _, _ in spots):
+                                it[p] = i
+                                break
+                    base = U.le(n_items, lw) + [b for it in items for b in it]
+                    add(idx, desc, base)
+                    for i in range(n_items):
+                        for (q, w_, _k) in spots:
+                            for badv in (2, 3, 128, 255):
+                                b2 = list(base)
+                                b2[lw + i * sz + q] = badv
+                                add(idx, desc, b2)
         for _ in range(per):
             add(idx, desc, rng.bytes(rng.choice([0, 1, 3, 4, 8, 12, 13, 16, 20, 40])))
     return cases
@@ -157,7 +181,7 @@ def _split(obs):
 
 # shapes whose Rust Owned type normalises (BTreeMap / BTreeSet order, UTF-8) or panics where the generic list errs:
 # on malformed inputs their owned conversion is judged by the predicate only
-NOT_COMPARED = {10, 11, 12, 16}
+NOT_COMPARED = {10, 11, 12, 16, 25, 26}
 
 
 def comparable(c):
@@ -250,6 +274,20 @@ def predicate(c, obs):
             return "the owned conversion produced a field with an invalid bit pattern"
         if not _strings_valid(idx, ty, v):
             return "the owned conversion produced a String that is not valid UTF-8"
+    # keyed containers at the top level (their owned conversion is not compared with the model: BTreeMap / BTreeSet order):
+    # an input whose item list is structurally readable and holds an item with a forbidden bit pattern must not convert
+    # (the Rust value would silently be normalised, so the check reads the INPUT bytes)
+    if own[:1] == [0] and U.role_at(idx, ()) in ("map", "set"):
+        lt = ty[1][0]
+        c, lw = lt[1], lt[2]
+        if len(bs) >= lw:
+            n = U.unle(bs[:lw])
+            sz = U.fsize(c)
+            if lw + n * sz <= len(bs):
+                for i in range(n):
+                    if not U.fvalid(c, bs[lw + i * sz:lw + (i + 1) * sz]):
+                        return ("the owned conversion accepted a %s whose item %d has an invalid bit pattern (%s)" %
+                                (U.role_at(idx, ()), i, bs[lw + i * sz:lw + (i + 1) * sz]))
     # shared view: extent inside the input; every yielded element inside the input
     if scan[:1] == [0]:
         ext = scan[1]
